@@ -54,6 +54,8 @@ pub enum Auth {
     Subst(Address, Address),
     /// Trees recorded for address `.0` are withheld; all others as recorded.
     Without(Address),
+    /// Only the recorded trees at these positions (in recording order), signed as asked.
+    Pick(Vec<usize>),
     /// Use a previously recorded forest (e.g. recorded for other arguments) verbatim.
     Forest(Vec<(ScAddress, SorobanAuthorizedInvocation)>),
 }
@@ -354,6 +356,13 @@ impl U {
                     }
                 }
             }
+            Auth::Pick(idx) => {
+                for (i, (a, inv)) in recorded.iter().enumerate() {
+                    if idx.contains(&i) {
+                        out.push(self.entry(a, inv));
+                    }
+                }
+            }
             Auth::Forest(f) => {
                 for (a, inv) in f {
                     out.push(self.entry(a, inv));
@@ -490,5 +499,15 @@ impl U {
             }
             _ => false,
         })
+    }
+}
+
+/// Like `flat` for clients whose error type has no Debug implementation.
+pub fn flat_any<T, CE, E>(r: Result<Result<T, CE>, Result<E, InvokeError>>) -> Result<T, String> {
+    match r {
+        Ok(Ok(v)) => Ok(v),
+        Ok(Err(_)) => Err("conversion".into()),
+        Err(Ok(_)) => Err("contract-error".into()),
+        Err(Err(e)) => Err(format!("invoke:{:?}", e)),
     }
 }
